@@ -20,14 +20,29 @@ VARIABLES kind, phase, saved, out, op
 vars == <<kind, phase, saved, out, op>>
 Init == kind \in Kinds /\ phase = "none" /\ saved = "nothing" /\ out = "ok" /\ op = "construct"
 Fit == /\ phase' = "fitted" /\ out' = "ok" /\ op' = "fit" /\ UNCHANGED <<kind, saved>>
+\* A fit that raises.  Two shapes, both observed (the repository's own tests produce the second one for three kinds):
+\*  - rejected before a subgraph exists (e.g. an empty training set): the object is as it was (FitRejected);
+\*  - failing after the new subgraph has replaced the old one (e.g. an index array that points outside the pre-computed
+\*    matrix): even a fitted object is left "untrained" - the generalisation of FailedFitForgets to every kind (FitFailsLate).
+FitErrors == {"IndexError", "BuildError", "SizeError", "ValueError", "TypeError", "ZeroDivisionError", "AttributeError", "KeyError"}
+FitRejected == /\ out' \in FitErrors /\ op' = "fit_fail" /\ UNCHANGED <<kind, phase, saved>>
+FitFailsLate == /\ out' \in FitErrors /\ phase' = "untrained" /\ op' = "fit_fail" /\ UNCHANGED <<kind, saved>>
+\* learn / prune (SupervisedOPF; the semi-supervised subclass inherits them but its fit needs the unlabeled set they do not pass):
+\* they end with a fitted model
+Learn == /\ kind = "sup" /\ phase' = "fitted" /\ out' = "ok" /\ op' = "learn" /\ UNCHANGED <<kind, saved>>
+Prune == /\ kind = "sup" /\ phase' = "fitted" /\ out' = "ok" /\ op' = "prune" /\ UNCHANGED <<kind, saved>>
+\* the public `subgraph` setter (and a load from a file the history did not see written): any phase
+Assign(p) == /\ phase' = p /\ out' = "ok" /\ op' = "assign" /\ UNCHANGED <<kind, saved>>
 \* KNN only: pre-computed matrix whose size is not n_train x n_train
 FitWrongMatrix == /\ kind = "knn" /\ phase' = "untrained" /\ out' = "BuildError" /\ op' = "fit_wrong_matrix" /\ UNCHANGED <<kind, saved>>
-Predict == /\ out' = IF phase = "fitted" THEN "ok"
-                     ELSE IF kind # "knn" THEN "BuildError"
-                     ELSE IF phase = "none" THEN "AttributeError" ELSE "ZeroDivisionError"
+\* (NoGuardKnn, continued: an untrained KNN subgraph left behind by a fit that failed *after* choosing k still answers - with
+\*  whatever the half-built model says.  Observed, named, and the reason PredictOnlyWhenFitted is stated for the guarded kinds.)
+Predict == /\ out' \in IF phase = "fitted" THEN {"ok"}
+                       ELSE IF kind # "knn" THEN {"BuildError"}
+                       ELSE IF phase = "none" THEN {"AttributeError"} ELSE {"ZeroDivisionError", "ok"}
            /\ op' = "predict" /\ UNCHANGED <<kind, phase, saved>>
 Propagate == /\ kind = "unsup"
-             /\ out' = IF phase = "fitted" THEN "ok" ELSE "AttributeError"
+             /\ out' = IF phase = "none" THEN "AttributeError" ELSE "ok"     \* no guard: any subgraph will do, trained or not
              /\ op' = "propagate" /\ UNCHANGED <<kind, phase, saved>>
 Save == /\ saved' = phase /\ out' = "ok" /\ op' = "save" /\ UNCHANGED <<kind, phase>>
 \* load into this object the state that was saved (a missing file raises FileNotFoundError and changes nothing)
@@ -35,9 +50,12 @@ Load == /\ op' = "load"
         /\ IF saved = "nothing" THEN out' = "FileNotFoundError" /\ UNCHANGED phase
            ELSE out' = "ok" /\ phase' = saved
         /\ UNCHANGED <<kind, saved>>
-Next == Fit \/ FitWrongMatrix \/ Predict \/ Propagate \/ Save \/ Load
+Next == Fit \/ FitWrongMatrix \/ FitRejected \/ FitFailsLate \/ Learn \/ Prune \/ Predict \/ Propagate \/ Save \/ Load
+        \/ \E p \in {"none", "untrained", "fitted"} : Assign(p)
 Spec == Init /\ [][Next]_vars
-PredictOnlyWhenFitted == (op = "predict" /\ out = "ok") => phase = "fitted"
+PredictOnlyWhenFitted == (op = "predict" /\ out = "ok" /\ kind # "knn") => phase = "fitted"
+\* a fit that raised never leaves a model that claims to be trained unless it was trained before and was not touched
+FailedFitLeavesOldOrNothing == [][(op' = "fit_fail") => (out' # "ok" /\ phase' \in {phase, "untrained"})]_vars
 FailureKeepsPhase == [][(op' \in {"predict", "propagate", "load"} /\ out' # "ok") => phase' = phase]_vars
 \* construction outcomes (a table, exported): distance identifier x pre-computed file argument
 ConstructOutcome(dist, pre) == IF dist = "unknown" THEN "TypeError"
